@@ -514,8 +514,12 @@ class GraphBuilder(BuilderBase):
                 name = f"{op_type}_{count}" if op_type else f"{count}"
                 return [ir.Value(name=self._qualify_value_name(name))]
             else:
+                # The node count comes last: it is unique per node across the whole builder
+                # tree, so two automatic names can only coincide within one node, where the
+                # output index tells them apart. ("{op}_{count}_{i}" made "f" with 4 outputs
+                # at node 1 and "f_1" at node 3 both produce "f_1_3".)
                 names = [
-                    (f"{op_type}_{count}_{i}" if op_type else f"{count}_{i}")
+                    (f"{op_type}_{i}_{count}" if op_type else f"{i}_{count}")
                     for i in range(outputs)
                 ]
                 return [ir.Value(name=self._qualify_value_name(n)) for n in names]
